@@ -50,5 +50,30 @@ Proof.
   - rewrite Eg. eapply pruning_sound_bounded4; eauto.
 Qed.
 
+Lemma unrestricted_bounded4 fuel i r lab c used : In (c, used) c08_domain ->
+  fa_gates (fa_of i) = gates_from lab 0 c -> used <= nq_of i <= 4 -> 1 <= fi_W i <= 4 ->
+  In (fi_gate_lo i, fi_wire_lo i) lo_combos ->
+  find_cuts_full fuel i = Val r -> fi_max_backjumps i = None -> spec_within i ->
+  md_minimum_reached (fr_meta r) = true.
+Proof.
+  intros I Eg Hn HW Ilo H MB SW. apply (unrestricted_spec fuel i r); auto.
+  - unfold gammas_ok_in. rewrite Eg. eapply c08_domain_gammas_ok; eauto.
+  - rewrite Eg. eapply pruning_sound_bounded4; eauto.
+Qed.
+
+Lemma seed_independent_bounded4 fuel1 fuel2 i t1 t2 r1 r2 lab c used : In (c, used) c08_domain ->
+  fa_gates (fa_of i) = gates_from lab 0 c -> used <= nq_of i <= 4 -> 1 <= fi_W i <= 4 ->
+  In (fi_gate_lo i, fi_wire_lo i) lo_combos ->
+  fi_max_backjumps i = None -> spec_within i ->
+  find_cuts_full fuel1 (with_tape i t1) = Val r1 -> find_cuts_full fuel2 (with_tape i t2) = Val r2 ->
+  (md_overhead (fr_meta r1) == md_overhead (fr_meta r2))%Q.
+Proof.
+  intros I Eg Hn HW Ilo MB SW. apply (seed_independent_spec fuel1 fuel2 i t1 t2 r1 r2); auto.
+  - unfold gammas_ok_in. rewrite Eg. eapply c08_domain_gammas_ok; eauto.
+  - rewrite Eg. eapply pruning_sound_bounded4; eauto.
+Qed.
+
 Print Assumptions pruning_sound_bounded4.
 Print Assumptions flag_sound_bounded4.
+Print Assumptions unrestricted_bounded4.
+Print Assumptions seed_independent_bounded4.
